@@ -207,8 +207,9 @@ def parse_diags(err):
         sym = None
         t = re.search(r'"([^"|]*)\|([^"]*)"', msg)
         if t:
-            sym = t.group(2)
-            msg = 'meaning changed: %s (declared by %s) no longer has the value it has when its header is included alone' % (sym, t.group(1))
+            # the key names the header whose fact changed: the same symbol failing for the other header is a different finding
+            sym = '%s@%s' % (t.group(2), os.path.basename(t.group(1)))
+            msg = 'meaning changed: %s (declared by %s) no longer has the value it has when its header is included alone' % (t.group(2), t.group(1))
         else:
             q = re.search(r"'([^']+)'", msg)
             if q:
